@@ -134,6 +134,9 @@ def gen_labels(rng, big):
         # legal labels; whatever a layout derives from the size of its coordinates
         # (tolerances, scratch values) must not outlive it
         base = rng.choice([10 ** 9, 5 * 10 ** 14, 2 ** 50, -3 * 10 ** 14])
+        # widths stay well above the spacing of floats out there (0.0625 - 0.25): a label
+        # whose ideal interval is empty in floating point is a known finding of its own
+        wpal = [w for w in wpal if w >= 3] or [50]
     pos2w = {}
     labels = []
     for _ in range(n):
@@ -438,8 +441,21 @@ def _bounds_ok(opts):
     return hi - lo >= 1
 
 
+def _has_empty_interval(plan):
+    for st in plan.get("sets", []):
+        for pos, w in st:
+            if not (pos - w / 2.0 < pos + w / 2.0):
+                return True
+    return False
+
+
 def valid(plan):
-    """The configurations C04/C06 exclude never appear in a plan: maxPos <= minPos."""
+    """The configurations C04/C06 exclude never appear in a plan: maxPos <= minPos.
+    Nor do labels whose ideal interval is empty in floating point (known finding,
+    DESIGN section 6: demonstrated by its own replay on every run, kept out of the
+    sampled plans so that it does not end every batch that meets it)."""
+    if _has_empty_interval(plan):
+        return False
     eng = {}
     ops = plan["ops"]
     for i, op in enumerate(ops):
@@ -1453,4 +1469,10 @@ def _simplifiers(plan, prop):
 
 
 def finding_signature(plan, violation):
-    return {"class": violation["class"], "op_kinds": [o[0] for o in plan["ops"]]}
+    sig = {"class": violation["class"], "op_kinds": [o[0] for o in plan["ops"]]}
+    exc = (violation.get("detail") or {}).get("exception")
+    if exc:
+        sig["exception"] = exc
+    if _has_empty_interval(plan):
+        sig["input"] = "label_with_empty_ideal_interval"
+    return sig
